@@ -198,7 +198,8 @@ def _r2(ctx):
         # no enumeration of the ten candidates: the reciprocal computed from the measurement, n = round(1 / m) - it must be
         # clamped to 1..10 on both sides, otherwise a measurement below 1/10.5 is snapped to an invented 1/n with n > 10
         rnd = [c for c in ast.walk(tf.node) if isinstance(c, ast.Call) and isinstance(c.func, ast.Name) and c.func.id == "round"
-               and c.args and pm.match("1 / M_m", c.args[0]) is not None]
+               and len(c.args) == 1 and not c.keywords and pm.match("1 / M_m", c.args[0]) is not None
+               and U(pm.match("1 / M_m", c.args[0])["M_m"]) == tm]
         if rnd:
             txt_ = U(tf.node)
             upper = any(isinstance(c, ast.Call) and isinstance(c.func, ast.Name) and c.func.id == "min" and any(num(a_) == 10 for a_ in c.args)
